@@ -262,151 +262,117 @@ fee_wrap!(c33_t_min_fee_wrap_shelley_ma, al::body(), al::spp(), |b, s, p| shelle
 
 // ------------------------------------------------------------------ one coin-only output
 
-/// 29 symbolic bytes: enterprise (type 6/7) and stake (14/15) addresses parse, base addresses are
-/// too short, pointer addresses run their variable-length integers, headers 9..13 are invalid.
-fn addr29(no_byron: bool) -> Bytes {
-    let a: [u8; 29] = kani::any();
-    if no_byron {
-        kani::assume(a[0] & 0xf0 != 0x80);
-    }
+/// N bytes with a concrete header byte (address type and network concrete per harness: a symbolic
+/// header gave no verdict in 280 s) and symbolic payload.
+pub fn addr<const N: usize>(hdr: u8) -> Bytes {
+    let mut a: [u8; N] = kani::any();
+    a[0] = hdr;
     Bytes::from(a.to_vec())
 }
 
-/// bound: one legacy coin-only output, 29-byte address with symbolic header (not the Byron type 8) and payload, symbolic coin, symbolic network id, ada_per_utxo_byte < 2^32, optional datum hash; unwind 32
-#[kani::proof]
-#[kani::unwind(32)]
-#[kani::stub(std::fmt::format, crate::stubs::fmt_format_stub)]
-#[kani::stub(pallas_codec::minicbor::encode::Error::write, crate::stubs::mcb_write_err_stub)]
-fn c33_q_output_alonzo() {
-    let mut body = al::body();
-    let dh: Option<[u8; 32]> = kani::any();
-    let out = al::TransactionOutput { address: addr29(true), amount: al::Value::Coin(kani::any()), datum_hash: dh.map(Hash::new) };
-    body.outputs = vec![out];
-    let mut pp = al::pp();
-    pp.ada_per_utxo_byte = kani::any();
-    kani::assume(pp.ada_per_utxo_byte < (1 << 32));
-    let net: u8 = kani::any();
-    let r1 = alonzo::verif_hooks::check_network_id(&body, &net);
-    let r2 = alonzo::verif_hooks::check_min_lovelace(&body, &pp);
-    kani::cover!(r1.is_ok(), "output on the right network");
-    kani::cover!(r1.is_err(), "output rejected (network / undecodable address)");
-    kani::cover!(r2.is_ok(), "enough lovelace");
-    kani::cover!(r2.is_err(), "below the minimum");
-    core::mem::forget((r1, r2));
-    core::mem::forget(pp);
-    core::mem::forget(body);
-}
-
-/// bound: shelley-ma: one coin-only output, 29-byte address with symbolic header (not type 8) and payload, symbolic coin, min_utxo_value, network id, era in {Shelley, Allegra, Mary, Alonzo}; unwind 32
-#[kani::proof]
-#[kani::unwind(32)]
-#[kani::stub(std::fmt::format, crate::stubs::fmt_format_stub)]
-#[kani::stub(pallas_codec::minicbor::encode::Error::write, crate::stubs::mcb_write_err_stub)]
-fn c33_q_output_shelley_ma() {
-    let mut body = al::body();
-    let out = al::TransactionOutput { address: addr29(true), amount: al::Value::Coin(kani::any()), datum_hash: None };
-    body.outputs = vec![out];
-    let mut pp = al::spp();
-    pp.min_utxo_value = kani::any();
-    let net: u8 = kani::any();
-    let k: u8 = kani::any();
-    let era = match k & 3 {
-        0 => Era::Shelley,
-        1 => Era::Allegra,
-        2 => Era::Mary,
-        _ => Era::Alonzo,
-    };
-    let r1 = shelley_ma::verif_hooks::check_network_id(&body, &net);
-    let r2 = shelley_ma::verif_hooks::check_min_lovelace(&body, &pp, &era);
-    kani::cover!(r1.is_ok(), "output on the right network");
-    kani::cover!(r1.is_err(), "output rejected");
-    kani::cover!(r2.is_ok(), "enough lovelace");
-    kani::cover!(r2.is_err(), "below the minimum / wrong era");
-    core::mem::forget((r1, r2));
-    core::mem::forget(pp);
-    core::mem::forget(body);
-}
-
-/// bound: babbage: one coin-only output (legacy or post-alonzo form, concrete raw byte), 29-byte address with symbolic header (not type 8) and payload, symbolic coin, network id, ada_per_utxo_byte < 2^32; unwind 32
-#[kani::proof]
-#[kani::unwind(32)]
-#[kani::stub(std::fmt::format, crate::stubs::fmt_format_stub)]
-#[kani::stub(pallas_codec::minicbor::encode::Error::write, crate::stubs::mcb_write_err_stub)]
-fn c33_q_output_babbage() {
-    let raw = [0u8; 1];
-    let mut body = ba::body();
-    let legacy: bool = kani::any();
-    let out = if legacy {
-        ba::TransactionOutput::Legacy(KeepRaw::verif_from_parts(
-            &raw,
-            al::TransactionOutput { address: addr29(true), amount: al::Value::Coin(kani::any()), datum_hash: None },
-        ))
-    } else {
-        ba::TransactionOutput::PostAlonzo(KeepRaw::verif_from_parts(
-            &raw,
-            ba::PostAlonzoTransactionOutput { address: addr29(true), value: ba::Value::Coin(kani::any()), datum_option: None, script_ref: None },
-        ))
-    };
-    body.outputs = vec![KeepRaw::verif_from_parts(&raw, out)];
-    let mut pp = ba::pp();
-    pp.ada_per_utxo_byte = kani::any();
-    kani::assume(pp.ada_per_utxo_byte < (1 << 32));
-    let net: u8 = kani::any();
-    let r1 = babbage::verif_hooks::check_network_id(&body, &net);
-    let r2 = babbage::verif_hooks::check_min_lovelace(&body, &pp);
-    kani::cover!(r1.is_ok() && legacy, "legacy output on the right network");
-    kani::cover!(r1.is_ok() && !legacy, "post-alonzo output on the right network");
-    kani::cover!(r1.is_err(), "output rejected");
-    kani::cover!(r2.is_ok(), "enough lovelace");
-    kani::cover!(r2.is_err(), "below the minimum");
-    core::mem::forget((r1, r2));
-    core::mem::forget(pp);
-    core::mem::forget(body);
-}
-
-macro_rules! conway_output {
-    ($name:ident, $mkout:expr) => {
+/// One output; the outputs Vec is backed by a stack array (Vec::from_raw_parts, capacity 0, never freed):
+/// CBMC loses the concrete enum discriminants of values it reads back from the heap and then explores
+/// the multi-asset (BTreeMap) encode / clone / drop code of values that are plain coins.
+macro_rules! outputs {
+    ($name:ident, $m:ident, |$raw:ident| $mkout:expr, |$b:ident, $n:ident| $net:expr, |$b2:ident| $minl:expr, $setpp:expr) => {
         #[kani::proof]
-        #[kani::unwind(32)]
+        #[kani::unwind(60)]
         #[kani::stub(std::fmt::format, crate::stubs::fmt_format_stub)]
         #[kani::stub(pallas_codec::minicbor::encode::Error::write, crate::stubs::mcb_write_err_stub)]
         fn $name() {
-            let raw = [0u8; 1];
-            let mut body = co::body();
-            let out = $mkout(&raw);
-            body.outputs = vec![out];
-            let mut pp = co::pp();
-            pp.ada_per_utxo_byte = kani::any();
-            kani::assume(pp.ada_per_utxo_byte < (1 << 32));
+            let raw0 = [0u8; 1];
+            let $raw = &raw0;
+            let mut body = $m::body();
+            let mut arr = [$mkout];
+            body.outputs = unsafe { Vec::from_raw_parts(arr.as_mut_ptr(), 1, 0) };
             let net: u8 = kani::any();
-            let r1 = conway::verif_hooks::check_network_id(&body, &net);
-            let r2 = conway::verif_hooks::check_min_lovelace(&body, &pp);
-            kani::cover!(r1.is_ok(), "output on the right network");
-            kani::cover!(r1.is_err(), "output rejected");
+            let r1 = {
+                let $b = &body;
+                let $n = &net;
+                $net
+            };
+            let r2 = {
+                let $b2 = &body;
+                $minl
+            };
+            kani::cover!(r1.is_err(), "output rejected by the network rule");
             kani::cover!(r2.is_ok(), "enough lovelace");
             kani::cover!(r2.is_err(), "below the minimum");
             core::mem::forget((r1, r2));
-            core::mem::forget(pp);
             core::mem::forget(body);
+            core::mem::forget(arr);
         }
     };
 }
 
-fn co_post<'a>(raw: &'a [u8; 1]) -> co::TransactionOutput<'a> {
+fn al_pp_sym() -> pallas_validate::utils::AlonzoProtParams {
+    let mut pp = al::pp();
+    pp.ada_per_utxo_byte = kani::any();
+    kani::assume(pp.ada_per_utxo_byte < (1 << 32));
+    pp
+}
+fn ba_pp_sym() -> pallas_validate::utils::BabbageProtParams {
+    let mut pp = ba::pp();
+    pp.ada_per_utxo_byte = kani::any();
+    kani::assume(pp.ada_per_utxo_byte < (1 << 32));
+    pp
+}
+fn co_pp_sym() -> pallas_validate::utils::ConwayProtParams {
+    let mut pp = co::pp();
+    pp.ada_per_utxo_byte = kani::any();
+    kani::assume(pp.ada_per_utxo_byte < (1 << 32));
+    pp
+}
+fn sh_pp_sym() -> pallas_validate::utils::ShelleyProtParams {
+    let mut pp = al::spp();
+    pp.min_utxo_value = kani::any();
+    pp
+}
+fn any_era() -> Era {
+    let k: u8 = kani::any();
+    match k & 3 {
+        0 => Era::Shelley,
+        1 => Era::Allegra,
+        2 => Era::Mary,
+        _ => Era::Alonzo,
+    }
+}
+pub fn al_out<const N: usize>(hdr: u8) -> al::TransactionOutput {
+    let dh: Option<[u8; 32]> = kani::any();
+    al::TransactionOutput { address: addr::<N>(hdr), amount: al::Value::Coin(kani::any()), datum_hash: dh.map(Hash::new) }
+}
+pub fn ba_post<'a, const N: usize>(raw: &'a [u8; 1], hdr: u8) -> KeepRaw<'a, ba::TransactionOutput<'a>> {
+    KeepRaw::verif_from_parts(
+        raw,
+        ba::TransactionOutput::PostAlonzo(KeepRaw::verif_from_parts(
+            raw,
+            ba::PostAlonzoTransactionOutput { address: addr::<N>(hdr), value: ba::Value::Coin(kani::any()), datum_option: None, script_ref: None },
+        )),
+    )
+}
+pub fn ba_legacy<'a, const N: usize>(raw: &'a [u8; 1], hdr: u8) -> KeepRaw<'a, ba::TransactionOutput<'a>> {
+    KeepRaw::verif_from_parts(raw, ba::TransactionOutput::Legacy(KeepRaw::verif_from_parts(raw, al_out::<N>(hdr))))
+}
+pub fn co_post<'a, const N: usize>(raw: &'a [u8; 1], hdr: u8) -> co::TransactionOutput<'a> {
     co::TransactionOutput::PostAlonzo(KeepRaw::verif_from_parts(
         raw,
-        co::PostAlonzoTransactionOutput { address: addr29(true), value: co::Value::Coin(kani::any()), datum_option: None, script_ref: None },
+        co::PostAlonzoTransactionOutput { address: addr::<N>(hdr), value: co::Value::Coin(kani::any()), datum_option: None, script_ref: None },
     ))
 }
-fn co_legacy<'a>(raw: &'a [u8; 1]) -> co::TransactionOutput<'a> {
-    co::TransactionOutput::Legacy(KeepRaw::verif_from_parts(
-        raw,
-        al::TransactionOutput { address: addr29(true), amount: al::Value::Coin(kani::any()), datum_hash: None },
-    ))
+pub fn co_legacy<'a, const N: usize>(raw: &'a [u8; 1], hdr: u8) -> co::TransactionOutput<'a> {
+    co::TransactionOutput::Legacy(KeepRaw::verif_from_parts(raw, al_out::<N>(hdr)))
 }
-// bound: conway: one coin-only output (post-alonzo / legacy form concrete per harness), 29-byte address with symbolic header (not type 8) and payload, symbolic coin, network id, ada_per_utxo_byte < 2^32; unwind 32
-conway_output!(c33_q_output_conway_post, co_post);
-conway_output!(c33_q_output_conway_legacy, co_legacy);
+
+// bound: one coin-only output (form, address length N and header byte concrete per harness: enterprise 0x61/0x65 N=29, base 0x00 N=57, stake 0xe1, truncated N=20, invalid header 0x90), symbolic payload, coin, optional datum hash (legacy), network id, ada_per_utxo_byte < 2^32 / min_utxo_value; unwind 60
+outputs!(c33_q_output_alonzo_ent, al, |raw| al_out::<29>(0x61), |b, n| alonzo::verif_hooks::check_network_id(b, n), |b| alonzo::verif_hooks::check_min_lovelace(b, &al_pp_sym()), ());
+outputs!(c33_t_output_alonzo_base, al, |raw| al_out::<57>(0x00), |b, n| alonzo::verif_hooks::check_network_id(b, n), |b| alonzo::verif_hooks::check_min_lovelace(b, &al_pp_sym()), ());
+outputs!(c33_q_output_shelley_stake, al, |raw| al_out::<29>(0xe1), |b, n| shelley_ma::verif_hooks::check_network_id(b, n), |b| shelley_ma::verif_hooks::check_min_lovelace(b, &sh_pp_sym(), &any_era()), ());
+outputs!(c33_t_output_shelley_ent, al, |raw| al_out::<29>(0x60), |b, n| shelley_ma::verif_hooks::check_network_id(b, n), |b| shelley_ma::verif_hooks::check_min_lovelace(b, &sh_pp_sym(), &any_era()), ());
+outputs!(c33_q_output_babbage_legacy_trunc, ba, |raw| ba_legacy::<20>(raw, 0x61), |b, n| babbage::verif_hooks::check_network_id(b, n), |b| babbage::verif_hooks::check_min_lovelace(b, &ba_pp_sym()), ());
+outputs!(c33_t_output_babbage_post_ent, ba, |raw| ba_post::<29>(raw, 0x71), |b, n| babbage::verif_hooks::check_network_id(b, n), |b| babbage::verif_hooks::check_min_lovelace(b, &ba_pp_sym()), ());
+outputs!(c33_q_output_conway_post_base, co, |raw| co_post::<57>(raw, 0x00), |b, n| conway::verif_hooks::check_network_id(b, n), |b| conway::verif_hooks::check_min_lovelace(b, &co_pp_sym()), ());
+outputs!(c33_q_output_conway_legacy_ent, co, |raw| co_legacy::<29>(raw, 0x65), |b, n| conway::verif_hooks::check_network_id(b, n), |b| conway::verif_hooks::check_min_lovelace(b, &co_pp_sym()), ());
+outputs!(c33_t_output_conway_post_badhdr, co, |raw| co_post::<29>(raw, 0x90), |b, n| conway::verif_hooks::check_network_id(b, n), |b| conway::verif_hooks::check_min_lovelace(b, &co_pp_sym()), ());
 
 /// vacuity twin: must come back FAILED
 #[kani::proof]
